@@ -87,10 +87,9 @@ add("m01h", ["C01"], (P, GUARD, """                requirements_ok = True
 add("m01i", ["C01"], (P, "                if requirements_ok:\n                    await self._feedback(candidate_next, \"STARTING\")",
                       "                if requirements_ok or candidate_next.forever:\n                    await self._feedback(candidate_next, \"STARTING\")"),
     rules=["R01.2"])
-add("m10b", ["C01", "C10"], (S, """        pure = await PureScheduler.co_run(self)
-""", """        import asyncio
-        asyncio.ensure_future(PureScheduler.co_run(self))
-        pure = True
+add("m10b", ["C01", "C10"], (S, """            pure = await PureScheduler.co_run(self)
+""", """            asyncio.ensure_future(PureScheduler.co_run(self))
+            pure = True
 """), rules=["R01.4", "R10.2", "R01.1"])
 add("b04a", ["C01", "C12", "C02", "C05"], (P, GUARD, """                requirements_ok = all(req.is_done() for req in candidate_next.required)
 """), expect='silent')
@@ -437,3 +436,125 @@ add("b13a", ["C13", "C11"], (P, """        self._record_beginning(self.shutdown_
         timeout = self._remaining_timeout()
 """, """        timeout = self.shutdown_timeout
 """), expect='silent')
+
+# ------------------------------------------------------------------ C04 / C10 / C14 / C06
+add("m04a", ["C04"], [(P, "                self._failed_timeout = self.timeout\n                return False", "                self._failed_critical = True\n                return False"),
+                      (P, "                await self.co_shutdown()\n                self._failed_critical = True\n                await self._feedback",
+                          "                await self.co_shutdown()\n                self._failed_timeout = self.timeout\n                await self._feedback")],
+    rules=["R04.1"])
+add("m04b", ["C04"], (P, """        self._failed_critical = False
+        self._failed_timeout = False
+
+        # empty schedulers""", """        self._failed_critical = False
+
+        # empty schedulers"""), rules=["R04.1"])
+add("m04c", ["C04", "C02"], (P, """                    None, "Emergency exit upon exception in critical job",
+                    force=True)
+                return False""", """                    None, "Emergency exit upon exception in critical job",
+                    force=True)
+                return True"""), rules=["R04.1", "R02.1"])
+add("m04d", ["C04", "C10"], (S, """        if self.failed_time_out():
+            raise TimeoutError("critical scheduler took too long")
+        # a critical job has exploded
+        if self.failed_critical():""", """        if self.failed_critical():
+            raise TimeoutError("critical scheduler took too long")
+        # a critical job has exploded
+        if self.failed_time_out():"""), rules=["R04.3", "R10.3"])
+add("m04e", ["C04", "C10"], (S, "                    raise exc\n", "                    raise type(exc)(*exc.args)\n"),
+    rules=["R04.3", "R10.3"])
+add("m04f", ["C04", "C14", "C10"], (W, """            finally:
+                # release slot""", """            except Exception as exc:
+                raise RuntimeError(str(exc))
+            finally:
+                # release slot"""), rules=["R04.4", "R14.3", "R10.3i"])
+add("m04g", ["C04"], (P, """        if self._failed_timeout is not False:
+            return "TIMED OUT after {}s".format(self._failed_timeout)
+        if self._failed_critical:
+            return "a CRITICAL job has raised an exception\"""", """        if self._failed_critical:
+            return "TIMED OUT after {}s".format(self._failed_timeout)
+        if self._failed_timeout is not False:
+            return "a CRITICAL job has raised an exception\""""), rules=["R04.5"])
+add("m04h", ["C04"], (P, "        return self._failed_timeout is not False\n", "        return self._failed_timeout\n"),
+    rules=["R04.2"])
+add("m04h2", ["C04"], (P, "        if self._failed_timeout is not False:\n            return \"TIMED OUT",
+                       "        if self._failed_timeout:\n            return \"TIMED OUT"), rules=["R04.5"])
+add("m04i", ["C04", "C10"], (S, """        if not self.critical:
+            return pure
+""", ""), rules=["R04.3", "R10.3"])
+add("m04j", ["C04", "C10"], (S, """                if not job.critical:
+                    continue
+""", ""), rules=["R04.3", "R10.3"])
+add("m04k", ["C04"], (P, """                await self.co_shutdown()
+                self._failed_timeout = self.timeout
+                return False""", """                await self.co_shutdown()
+                return False"""), rules=["R04.1"])
+add("m10c", ["C10"], (S, """        AbstractJob.__init__(self, **kwds)
+""", """        self.kwds = kwds
+"""), rules=["R10.1"])
+add("m14a", ["C14"], (W, """            finally:
+                # release slot in the queue, whatever the outcome of the job
+                # (it may have raised, or been cancelled)
+                await self.queue.get()
+""", """            finally:
+                # release slot in the queue, whatever the outcome of the job
+                # (it may have raised, or been cancelled)
+                await self.queue.get()
+                job._running = False
+"""), rules=["R14.2"])
+add("m14b", ["C14", "C01", "C03"], (J, "and self._task._state == asyncio.futures._FINISHED", "and self._task._state != 'PENDING'"),
+    rules=["R14.1", "R01.3", "R03.2"])
+add("m14c", ["C14"], (J, """        if self._task is None:
+            return None
+        return self._task._exception""", """        if self._task is None:
+            return None
+        return self._task._result"""), rules=["R14.1"])
+add("m14d", ["C14"], (W, "            # return the right thing\n            return value", "            return None"),
+    rules=["R14.3"])
+add("m14e", ["C14", "C06"], (P, """        # clear any Task instance
+        self._reset_tasks()
+""", ""), rules=["R14.2", "R06.4"])
+add("m14f", ["C14"], (J, "        return self._task is not None\n", "        return self._running\n"), rules=["R14.1"])
+add("m14g", ["C14"], (J, """        if not self.is_done():
+            raise ValueError("job not finished")
+        return self._task._result""", """        if not self.is_scheduled():
+            raise ValueError("job not finished")
+        return self._task._result"""), rules=["R14.1"])
+add("m14h", ["C14"], (J, """        result = await self.corun
+        return result""", """        await self.corun
+        return None"""), rules=["R14.3"])
+add("m14i", ["C14", "C06"], (P, """        await asyncio.gather(*exception_tasks, return_exceptions=True)
+""", """        await asyncio.gather(*exception_tasks, return_exceptions=True)
+        for task in exception_tasks:
+            task._job._task = None
+"""), rules=["R14.2", "R06.4"])
+add("m06a", ["C06", "C05"], (P, """                if done_job.raised_exception():
+                    critical_failure = critical_failure \\""", """                if done_job.raised_exception() and not self.verbose:
+                    critical_failure = True
+                if done_job.raised_exception():
+                    critical_failure = critical_failure \\"""), rules=["R06.1", "R05.1"])
+add("m06b", ["C06", "C02"], (P, "            nb_jobs_done += len(done_jobs_not_forever)", "            nb_jobs_done += len([t for t in done_jobs_not_forever if not t._exception])"),
+    rules=["R06.1", "R06.3", "R02.1"])
+add("m06c", ["C06"], (P, """                if requirements_ok:
+                    await self._feedback(candidate_next, "STARTING")""", """                if requirements_ok and not any(r.raised_exception() for r in candidate_next.required):
+                    await self._feedback(candidate_next, "STARTING")"""), rules=["R06.1"])
+add("m06d", ["C06"], (P, """            if critical_failure:
+                await self._tidy_tasks(pending)""", """            if done_ko and len(done_ko) > 3:
+                await self._tidy_tasks(pending)
+                await self.co_shutdown()
+                return False
+            if critical_failure:
+                await self._tidy_tasks(pending)"""), rules=["R06.1"], note="aborts after many non-critical failures")
+add("b09", ["C06", "C05", "C02"], (P, """            done_ok = {t for t in done if not t._exception}
+            await self._feedback(done_ok, "DONE")
+            done_ko = done - done_ok
+            await self._feedback(done_ko, "RAISED EXC.")
+""", ""), expect='silent')
+add("b11", ["C14", "C01", "C03", "C06"], (J, """        return self._task is not None \\
+            and self._task._state == asyncio.futures._FINISHED""", """        return self._task is not None and self._task.done() \\
+            and not self._task.cancelled()"""), expect='silent')
+add("b12", ["C14"], (J, "        return self._task is None\n\n    def is_scheduled", "        return not self.is_scheduled()\n\n    def is_scheduled"),
+    expect='silent')
+add("b14r", ["C14", "C04"], (J, """        if self._task is None:
+            return None
+        return self._task._exception""", """        return self._task._exception if self._task is not None else None"""),
+    expect='silent')
